@@ -908,6 +908,38 @@ func faultsMatchShape(p *packages.Package) []string {
 	return shape
 }
 
+// top-level statements of faults.Set.match, in order: the lock calls, the lookup, the walk, the returns.
+// The walk over the description list is under the read lock iff the list reads
+// ["RLock", "defer:RUnlock", ..., "range", ...] with no plain "RUnlock" before the range.
+func faultsSetMatchLock(p *packages.Package) []string {
+	fd := funcDecl(p, "Set", "match")
+	var shape []string
+	if fd == nil {
+		return shape
+	}
+	for _, st := range fd.Body.List {
+		switch x := st.(type) {
+		case *ast.ExprStmt:
+			if c, ok := x.X.(*ast.CallExpr); ok {
+				n := exprName(c.Fun)
+				shape = append(shape, n[strings.LastIndex(n, ".")+1:])
+			}
+		case *ast.DeferStmt:
+			n := exprName(x.Call.Fun)
+			shape = append(shape, "defer:"+n[strings.LastIndex(n, ".")+1:])
+		case *ast.AssignStmt:
+			shape = append(shape, "assign")
+		case *ast.RangeStmt:
+			shape = append(shape, "range")
+		case *ast.ReturnStmt:
+			shape = append(shape, "return")
+		default:
+			shape = append(shape, "?")
+		}
+	}
+	return shape
+}
+
 func main() {
 	repo := "/repo"
 	if len(os.Args) > 1 {
@@ -1015,6 +1047,7 @@ func main() {
 	fmt.Fprintf(&out, "\n/-- maintenance services registered by services/prune-common.go: (service name, action constructor) -/\ndef pruneServices : List (String × String) := [%s]\n", strings.Join(pruneServices(svc), ", "))
 	flt := byName["faults"]
 	fmt.Fprintf(&out, "\n/-- steps of faults.Set.Check found in the source, in order -/\ndef faultsCheckShape : List String := %s\n", q(faultsCheckShape(flt)))
+	fmt.Fprintf(&out, "/-- top-level statements of faults.Set.match, in order (is the walk over the descriptions under the read lock?) -/\ndef faultsSetMatchLock : List String := %s\n", q(faultsSetMatchLock(flt)))
 	fmt.Fprintf(&out, "/-- statements of faults.Description.match, in order -/\ndef faultsMatchShape : List String := %s\n", q(faultsMatchShape(flt)))
 
 	out.WriteString("\nend Mmmbbb.Extracted\n")
